@@ -74,6 +74,87 @@ let show_ores osv (c : ocall) (r : ores) : string =
   | OVErr e -> Printf.sprintf "E C%d" (int_of_n (vcode e))
   | OVols l -> "VS " ^ String.concat "," (List.map tok_of_str l)
 
+(* ---- OrefaFS (model OrefaFS.v / OrefaWorld.v, initial world and snapshot of OrefaWin.v) ------------------- *)
+let o_entries (w : oworld) = ovsnapshot w
+
+let o_snapshot_text (w : oworld) : string =
+  let b = Buffer.create 256 in
+  let os = oworld_os w in
+  let classes = ref [] in
+  let cls id = match List.assoc_opt id !classes with
+    | Some k -> k
+    | None -> let k = List.length !classes in classes := (id, k) :: !classes; k in
+  List.iter (fun e -> match e with
+    | OS (SDir (p, m, u, g)) ->
+        Buffer.add_string b (Printf.sprintf "D %s %d %d %d\n" (tok_of_str p) (int_of_n m) (int_of_z u) (int_of_z g))
+    | OS (SFile (p, m, u, g, d, k, id)) ->
+        Buffer.add_string b (Printf.sprintf "F %s %d %d %d %d %d %s\n" (tok_of_str p) (int_of_n m) (int_of_z u) (int_of_z g)
+                               (int_of_z k) (cls (int_of_n id)) (tok_of_str d))
+    | OS (SSym (p, m, u, g, t)) ->
+        Buffer.add_string b (Printf.sprintf "L %s %d %d %d %s\n" (tok_of_str p) (int_of_n m) (int_of_z u) (int_of_z g) (tok_of_str t))
+    | OSErr (k, p, e) ->
+        (match int_of_nat k with
+         | 0 -> Buffer.add_string b (Printf.sprintf "!lstat-root %s %s\n" (tok_of_str p) (Drv_fs.show_code os e))
+         | 1 -> Buffer.add_string b (Printf.sprintf "!readdir %s %s\n" (tok_of_str p) (Drv_fs.show_code os e))
+         | _ -> Buffer.add_string b (Printf.sprintf "!lstat %s %s\n" (tok_of_str p) (Drv_fs.show_code os e))))
+    (o_entries w);
+  Buffer.contents b
+
+(* the harness's normalisation of a path: volume dropped, '/' for the separator *)
+let norm_path os (p : str) : string =
+  let s = string_of_str p in
+  if os = Windows then
+    let s = if String.length s >= 2 && s.[1] = ':' then String.sub s 2 (String.length s - 2) else s in
+    String.map (fun c -> if c = '\\' then '/' else c) s
+  else s
+
+let o_norm_text (w : oworld) : string =
+  let b = Buffer.create 256 in
+  let os = oworld_os w in
+  let classes = ref [] in
+  let cls id = match List.assoc_opt id !classes with
+    | Some k -> k
+    | None -> let k = List.length !classes in classes := (id, k) :: !classes; k in
+  List.iter (fun e -> match e with
+    | OS (SDir (p, _, _, _)) -> Buffer.add_string b (Printf.sprintf "D %s\n" (tok_of_string (norm_path os p)))
+    | OS (SFile (p, _, _, _, d, k, id)) ->
+        Buffer.add_string b (Printf.sprintf "F %s %d %d %s\n" (tok_of_string (norm_path os p)) (int_of_z k) (cls (int_of_n id)) (tok_of_str d))
+    | OS (SSym (p, _, _, _, t)) ->
+        Buffer.add_string b (Printf.sprintf "L %s %s\n" (tok_of_string (norm_path os p)) (tok_of_string (norm_path os t)))
+    | OSErr (_, p, _) -> Buffer.add_string b (Printf.sprintf "! %s\n" (tok_of_string (norm_path os p))))
+    (o_entries w);
+  Buffer.contents b
+
+let o_show_snap mode w = match mode with
+  | "none" -> ""
+  | "full" -> " #" ^ String.concat ";" (String.split_on_char '\n' (o_snapshot_text w))
+  | "norm" -> " #" ^ Digest.to_hex (Digest.string (o_snapshot_text w)) ^ "/" ^ Digest.to_hex (Digest.string (o_norm_text w))
+  | "normfull" -> " #" ^ String.concat ";" (String.split_on_char '\n' (o_snapshot_text w)) ^ "/" ^ String.concat ";" (String.split_on_char '\n' (o_norm_text w))
+  | _ -> " #" ^ Digest.to_hex (Digest.string (o_snapshot_text w))
+
+let run_orefa_line os um snapmode dirs ops =
+  let osv = match os with "linux" -> Linux | "windows" -> Windows | _ -> failwith "ostype: unsupported os" in
+  let w = ref (match dirs with None -> o_init_os osv (n_of_int um) | Some d -> o_init_dirs osv (n_of_int um) d) in
+  let outs = ref [] in
+  (try
+    List.iter (fun o ->
+      match split_ws o with
+      | ("VA" | "VD" | "VL") :: _ -> outs := ("NOVM" ^ o_show_snap snapmode !w) :: !outs
+      | toks ->
+          let c = Drv_fs.parse_op toks in
+          let (w', r) = ostep !w c in
+          w := w';
+          (match r, c with
+           | (RPanic | RDeadlock), _ ->
+               outs := (Drv_fs.show_res osv c r ^ (if snapmode = "none" then "" else " #-")) :: !outs; raise Exit
+           | RFail EW_NotSupported, CSymlink _ when osv = Windows ->
+               (* OrefaFS.o_symlink: the Windows value of Symlink is ErrWinPrivilegeNotHeld (1314, errors.go), which has
+                  no constructor in MemFS.ekind; the model stands for it with EW_NotSupported *)
+               outs := ("E W1314" ^ o_show_snap snapmode w') :: !outs
+           | _ -> outs := (Drv_fs.show_res osv c r ^ o_show_snap snapmode w') :: !outs)) ops
+  with Exit -> ());
+  print_endline (String.concat " | " (List.rev !outs))
+
 let run () =
   iter_lines (fun line ->
     match split_bar line with
@@ -85,6 +166,7 @@ let run () =
                | [s] when String.length s >= 3 && String.sub s 0 3 = "sd=" -> Some (parse_dirs s)
                | [] -> None
                | _ -> failwith "ostype: bad header" in
+             if fs = "orefafs" then run_orefa_line os (int_of_string um) snapmode dirs ops else
              let w = ref (init_world fs os (int_of_string um) dirs) in
              let osv = if os = "windows" then Windows else Linux in
              let outs = ref [] in
